@@ -24,6 +24,8 @@ class C03Episode(Episode):
                                  wc.get('marker', wc['name']))
                                 for wc in self.cfg['watchers'])
         self.episodes = {}       # pid -> dict
+        self.kid_sigs = {}
+        self.kids_seen = {}
         self.alive_kids = {}
         k.sig_context = self.sig_context
         k.on_signal = self.on_signal
@@ -74,9 +76,14 @@ class C03Episode(Episode):
             root = p
             while root is not None and root.orig_parent != me:
                 root = k.procs.get(root.orig_parent)
-            if root is not None and root.pid in self.episodes:
-                self.episodes[root.pid]['kid_signals'].append(
+            if root is not None:
+                # children may be signalled before or after their worker
+                self.kid_sigs.setdefault(root.pid, []).append(
                     (entry['t'], p.pid, entry['sig']))
+                if root.pid not in self.kids_seen:
+                    self.kids_seen[root.pid] = [
+                        c for c in k.descendants(root.pid)
+                        if k.procs[c].alive or c == p.pid]
             return
         ep = self.episodes.get(p.pid)
         if ep is None:
@@ -100,6 +107,8 @@ class C03Episode(Episode):
             # which for 'set' comes in the same dispatch; fine
             kids = [c for c in k.descendants(p.pid) if k.procs[c].alive] \
                 if mdl['children'] else []
+            if mdl['children'] and p.pid in self.kids_seen:
+                kids = sorted(set(kids) | set(self.kids_seen[p.pid]))
             ep = {'t0': entry['t'], 'g': g, 's': s, 'first': entry['sig'],
                   'cause': (cause or ['?'])[0], 'signals': [],
                   'children': mdl['children'], 'kids_at_t0': kids,
@@ -109,8 +118,13 @@ class C03Episode(Episode):
         ep['signals'].append((entry['t'], entry['sig'], entry['effect'],
                               entry['step']))
         if entry['sig'] == 9 and 'kids_at_kill' not in ep:
-            ep['kids_at_kill'] = [c for c in k.descendants(p.pid)
-                                  if k.procs[c].alive]
+            # children that were alive when the SIGKILL round began (they
+            # are signalled just before their worker)
+            tk = entry['t']
+            early = set(c for (t, c, sg) in self.kid_sigs.get(p.pid, [])
+                        if sg == 9 and abs(t - tk) <= 1e-3)
+            ep['kids_at_kill'] = sorted(set(
+                c for c in k.descendants(p.pid) if k.procs[c].alive) | early)
 
     def slack(self, ep, upto_step):
         sc = self.cfg.get('step_cost', 0.0)
@@ -188,7 +202,8 @@ class C03Episode(Episode):
             elif not kills:
                 self.probes['exited_in_time_no_sigkill'] += 1
             if ep['children']:
-                got = set(c for (t, c, sg) in ep['kid_signals']
+                ks = self.kid_sigs.get(pid, [])
+                got = set(c for (t, c, sg) in ks
                           if sg == ep['s'] and abs(t - t0) <= self.slack(
                               ep, ep['step0']))
                 missing = [c for c in ep['kids_at_t0'] if c not in got
@@ -205,7 +220,8 @@ class C03Episode(Episode):
                 elif ep['kids_at_t0']:
                     self.probes['children_signalled'] += 1
             if kills and ep['children']:
-                gotk = set(c for (t, c, sg) in ep['kid_signals'] if sg == 9)
+                gotk = set(c for (t, c, sg) in self.kid_sigs.get(pid, [])
+                           if sg == 9)
                 # descendants are enumerated after the parent was signalled:
                 # with death latency 0 a dead parent has none (see C18)
                 parent_gone = p.death_time is not None and \
